@@ -217,6 +217,11 @@ class KernelSim(WorldBase):
                 evs.append(["session", {"role": "sweep", "flow": flow, "prefix": "s", "reg": reg, "ncu": t,
                                         "end": "normal", "warmup": warm}])
             if g.random() < 0.5:
+                # the program changes the threshold while the kernel runs (rows are already waiting): same files
+                evs.append(["session", {"role": "sweep", "flow": flow, "prefix": "s", "reg": reg, "ncu": g.choice([64, 1000]),
+                                        "end": "normal", "warmup": warm,
+                                        "ncu_switch": [g.randint(1, 30), g.choice([2, 3, 5])]}])
+            if g.random() < 0.5:
                 # a kernel over a flattened rank (tuple coordinates, Metrics.associateShape)
                 M, Kk, N = g.randint(1, 3), g.randint(1, 3), g.randint(1, 4)
                 ent = [[[m, k, n], g.choice([1, 2, 3])] for m in range(M) for k in range(Kk) for n in range(N)
@@ -685,6 +690,15 @@ class KernelSim(WorldBase):
                         g_.close()
                     self.held_gens = []
                     self.probe("held_walk_of_an_earlier_session_released_mid_session")
+        if role == "sweep" and s.get("ncu_switch"):
+            sw_at, sw_to = s["ncu_switch"]
+
+            def hook(kind, info):
+                i = hook_n[0]
+                hook_n[0] += 1
+                if i == sw_at:
+                    Metrics.setNumCachedUses(sw_to)
+                    self.probe("flush_threshold_changed_while_rows_were_waiting")
         if role == "isect":
             isect = self._isect_setup(s, flow)
             mask = s.get("mask", 0)
